@@ -165,9 +165,10 @@ func (v *verifier) covered(row *rowRec, k int) (meta, index bool) {
 
 // inHole: the row sits in the window of the node flush protocol (metadata PrepareFlush/Flush -> index
 // PrepareFlush/Flush -> data Flush) in which lindb makes index entries and data durable whose dictionary entries (or
-// series entries) are not: at image k no completed metadata flush (index flush of its shard) covers the row's names,
-// and an index flush of its shard or a data flush of its partition that began after those names were created had
-// already started writing. Damage to such a row after a crash at image k is the known protocol defect; damage to any
+// series entries) are not: at image k no completed metadata flush covers one of the row's dictionary names and an
+// index flush of its shard or a data flush of its partition that began after that name was created had already started
+// writing; or no completed index flush of its shard covers its series and a data flush of its partition that began
+// after the series was created had started writing. Damage to such a row after a crash at image k is the known protocol defect; damage to any
 // other row is not.
 func (v *verifier) inHole(ref *rowRef, k int) bool {
 	row := ref.row
@@ -183,30 +184,37 @@ func (v *verifier) inHole(ref *rowRef, k int) bool {
 			lastIndex = f.BeginTick
 		}
 	}
-	// earliest creation tick of a name no completed flush covers
-	uncovered := int64(-1)
-	note := func(t int64) {
-		if uncovered < 0 || t < uncovered {
-			uncovered = t
-		}
-	}
+	// earliest creation tick of a dictionary name no completed metadata flush covers / of the series entry if no
+	// completed index flush covers it
+	metaUncovered, seriesUncovered := int64(-1), int64(-1)
 	comps, ser := row.components()
 	for _, c := range comps {
 		if t, ok := v.metaFirst[c]; ok && t >= lastMeta {
-			note(v.metaLo[c])
+			if lo := v.metaLo[c]; metaUncovered < 0 || lo < metaUncovered {
+				metaUncovered = lo
+			}
 		}
 	}
 	if t, ok := v.seriesFirst[ser]; ok && t >= lastIndex {
-		note(v.seriesLo[ser])
+		seriesUncovered = v.seriesLo[ser]
 	}
-	if uncovered < 0 {
+	if metaUncovered < 0 && seriesUncovered < 0 {
 		return false
 	}
 	for _, f := range v.L.Flushes {
-		if f.BeginImg > k || f.BeginTickHi < uncovered {
+		if f.BeginImg > k {
 			continue
 		}
-		if (f.Kind == "index" && f.Shard == row.Shard) || (f.Kind == "data" && f.Shard == ref.entry.Part.Shard && f.Family == ref.entry.Part.Family) {
+		ownData := f.Kind == "data" && f.Shard == ref.entry.Part.Shard && f.Family == ref.entry.Part.Family
+		// a dictionary name that is not durable: index entries (index flush of the shard) or data (data flush of the
+		// partition) that refer to its id became durable if such a flush swapped its stores after the name was created
+		if metaUncovered >= 0 && f.BeginTickHi >= metaUncovered && ((f.Kind == "index" && f.Shard == row.Shard) || ownData) {
+			return true
+		}
+		// a series entry that is not durable (its dictionary names are): only data of the row flushed with the log
+		// sequence hurts. An index flush that is still running does NOT count: its stores are committed in an order
+		// (series mapping last) that lets the replay index the series again wherever the flush is cut.
+		if seriesUncovered >= 0 && f.BeginTickHi >= seriesUncovered && ownData {
 			return true
 		}
 	}
@@ -887,7 +895,22 @@ func (v *verifier) freshWrite(res *imgResult, n *node.Node, parts map[partKey]*p
 	defer c.Close()
 	from, to := v.timeRange()
 	sql := fmt.Sprintf("select f from 'fresh' where time >= '%s' and time <= '%s' group by uid limit 100000", from, to)
+	slotKey := fmt.Sprintf("%d/%d", fam, slot)
 	got, err := queryCells(c, L, sql, "f")
+	asExpected := func(g map[string]map[string]float64, e error) bool {
+		return e == nil && len(g) == 1 && len(g["fresh-u"]) == 1 && g["fresh-u"][slotKey] == 1
+	}
+	if !asExpected(got, err) {
+		// same rule as for the other queries: an unexpected answer counts if two of three identical queries give it
+		g2, e2 := queryCells(c, L, sql, "f")
+		if asExpected(g2, e2) {
+			res.Counters["identical_queries_with_different_answers_at_quiescence"]++
+			res.Note["unrepeatable"] = fmt.Sprintf("%q: first answer %v / %v, second answer as expected", sql, got, err)
+			if g3, e3 := queryCells(c, L, sql, "f"); asExpected(g3, e3) {
+				got, err = g3, e3
+			}
+		}
+	}
 	lostClass := "C07/write-after-recovery-lost"
 	foreignClass := "C07/new-names-after-recovery-show-foreign-data"
 	nowIDs := lookupIDs(n, &rows[0])
@@ -902,7 +925,6 @@ func (v *verifier) freshWrite(res *imgResult, n *node.Node, parts map[partKey]*p
 		res.fail(lostClass, "entry appended to %s after recovery (queue opened with appended=%d acknowledged=%d): %q: %v", built[0].part, obs[built[0].part].Appended, obs[built[0].part].QueueAck, sql, err)
 		return
 	}
-	slotKey := fmt.Sprintf("%d/%d", fam, slot)
 	if got["fresh-u"][slotKey] != 1 {
 		res.fail(lostClass, "entry appended to %s after recovery (queue opened with appended=%d acknowledged=%d): %q returns %v for the new row", built[0].part, obs[built[0].part].Appended, obs[built[0].part].QueueAck, sql, got)
 	}
